@@ -696,7 +696,11 @@ func TestHarness(t *testing.T) {
 						}
 					}
 					if rng.Chance(1, 4) && !strings.Contains(l, " drain- ") && !strings.Contains(l, " wcancel ") {
-						l += " hold=1"
+						if strings.Contains(l, " sync ") && rng.Chance(1, 3) {
+							l += " hold=2" // this call itself is overtaken between its clock read and the lock
+						} else {
+							l += " hold=1"
+						}
 					}
 				}
 				if holds && rng.Chance(1, 4) {
